@@ -334,7 +334,7 @@ def r3(db, rep):
     rep.rule("R3", "Context.kept_alive is written only by WeakRef construction/deref, clear_kept_objects and the builder")
     writers = {}
     for f in db.fns.values():
-        if not f.id.startswith("boa_engine::"):
+        if not f.id.startswith("boa_engine::") or not f.mentions("kept_alive"):
             continue
         for b in f.reachable():
             for s in f.blocks[b]["s"]:
